@@ -10,7 +10,7 @@ from ..pm import U
 from . import common as C
 
 EXPLANATION = (
-    "Static analysis of KernelDG.check_for_loopcarried_dep, KernelDG._extend_path and the two front-end consumers. R1: the second copy's renumbering, both path-search targets and the inverse map use the same offset variable in the same affine form; R2: the offset's defining expression is normalised to max(c, M)+k / max(c, M+k) / M+k with M = max over the kernel's line numbers and k >= 1 is required (copy test false on every original node id, incl. M+0.1 load nodes); R3: every kernel line is a search root: the root loops iterate the whole kernel / the whole slice, no iteration can return to the loop head without performing the search (CFG), and a depth bound (cutoff), if any, is at least the kernel length or the graph's node count - never a worker's slice length; R4: the de-duplication key is built from the sorted member list (sort dominates key construction, membership test precedes insertion) and the member list that is kept is in that sorted order too; R5: every edge contributes its latency once to members and sum; R6: result list sorted before the dict is built; R7: text and dict select the maximum-latency cycle by the same expression with default 0.0."
+    "Static analysis of KernelDG.check_for_loopcarried_dep, KernelDG._extend_path and the two front-end consumers. R1: the second copy's renumbering, both path-search targets and the inverse map use the same offset variable in the same affine form; R2: the offset's defining expression is normalised to max(c, M)+k / max(c, M+k) / M+k with M = max over the kernel's line numbers and k >= 1 is required (copy test false on every original node id, incl. M+0.1 load nodes); R3: every kernel line is a search root (a root may be passed over only under a test that its copy in the next iteration is unreachable; the search may run on G.subgraph(nodes on a source->target path), which contains every such path): the root loops iterate the whole kernel / the whole slice, no iteration can return to the loop head without performing the search (CFG), and a depth bound (cutoff), if any, is at least the kernel length or the graph's node count - never a worker's slice length; R4: the de-duplication key is built from the sorted member list (sort dominates key construction, membership test precedes insertion) and the member list that is kept is in that sorted order too; R5: every edge contributes its latency once to members and sum; R6: result list sorted before the dict is built; R7: text and dict select the maximum-latency cycle by the same expression with default 0.0."
 )
 NOT_DECIDED = (
     "Completeness/soundness of the reported set against an independent cycle enumerator on "
